@@ -108,7 +108,8 @@ def run(chk, tier, seed, replay=None):
         corecheck.run_mc(chk, ['Runner_design', 'Runner_deep2'], timeout=3000)
         nb, nsingle = 700, 1500
     prof = {'kinds': 'mixed', 'hooks': 'all', 'outcomes': ['pass', 'pass', 'fail', 'skip_body'],
-            'tests_per_layer': (1, 3), 'unit_tests': (0, 3), 'opts': opts, 'sweep': True}
+            'tests_per_layer': (1, 3), 'unit_tests': (0, 3), 'opts': opts, 'sweep': True,
+            'dotted': 0.2}
     base = corecheck.gen_cases(rng, graphs, nb + nsingle, prof, 'w')
     cases = []
     peers = {}
